@@ -312,6 +312,18 @@ func c03Directed(c *core.Ctx) bool {
 		c.Violation("destination-is-not-documented-coercion|preprocess-returning-a-pointer-as-any", map[string]any{"destination": fmt.Sprintf("%+v", pz), "issues": fmt.Sprint(z.Issues.SanitizeMap(pm)), "want": "{Name:Robert Tags:[a b c]}"})
 		return false
 	}
+	// (f) a tag that is present and empty names the empty key: the field is read from there, not from the schema key
+	type emptyTag struct {
+		Text string `zog:""`
+		N    int    `json:""`
+	}
+	var et emptyTag
+	em := z.Struct(z.Schema{"text": z.String(), "n": z.Int()}).Parse(map[string]any{"": "from-empty-key", "text": "from-schema-key", "n": 3}, &et)
+	c.Eval(1)
+	if len(em) != 0 || et.Text != "from-empty-key" || et.N != 3 {
+		c.Violation("destination-is-not-documented-coercion|empty-tag-key", map[string]any{"destination_type": "struct{ Text string `zog:\"\"`; N int `json:\"\"` }", "input": "{\"\": from-empty-key, text: from-schema-key, n: 3}", "destination": fmt.Sprintf("%+v", et), "want": "{Text:from-empty-key N:3}"})
+		return false
+	}
 	c.Count("directed_coercion_scenarios", 1)
 	return true
 }
